@@ -67,6 +67,17 @@ theorem C12_own_position_at_delivery {cfg : Config S} (hdt : 0 < cfg.dt) {P : No
     (∀ e ∈ w.loop.queue, e.kind.isTel = true → ∀ e' ∈ w.loop.queue, e'.kind.isTick = true → e.ts < e'.ts) :=
   ⟨(reachable_minv hdt h).tel_now, (reachable_minv hdt h).tick_after_tel⟩
 
+/-- the same under a tolerant stepped driver (`ReachableT`): an exception that escapes from a telemetry (or any
+    other) callback does not disturb the updates that follow - still exactly one update queued, due at (updates
+    so far + 1)·dt, every queued telemetry due now and carrying its node's own current position (what seeded
+    change C12_K breaks) -/
+theorem C12_telemetry_tolerant {cfg : Config S} (hdt : 0 < cfg.dt) {P : NodeId → Proto S σ} {w : World S σ}
+    (h : ReachableT cfg P w) :
+    (w.loop.queue.filter (fun e => e.kind.isTick)).length = (if cfg.hasMob then 1 else 0) ∧
+    (∀ e ∈ w.loop.queue, e.kind.isTick = true → e.ts = ((tickCount w : Nat) + 1) * cfg.dt) ∧
+    (∀ e ∈ w.loop.queue, ∀ n p, e.kind = .telemetry n p → e.ts = w.loop.now ∧ w.pos n = p) :=
+  ⟨(reachableT_minv hdt h).ticks, (reachableT_minv hdt h).tick_time, (reachableT_minv hdt h).tel_now⟩
+
 /-- non-vacuity: a static node (no target) keeps its position and still gets its telemetry -/
 example (cfg : Config S) (w : World S σ) (n : NodeId) (h : w.target n = none) :
     newPos cfg w n = w.pos n := by
